@@ -177,7 +177,7 @@ def shift_is_known(c):
     return any(c.shape[i] % 2 == 0 and max(c.ck[i], c.k[i] - 1 - c.ck[i]) >= c.shape[i] // 2 for i in range(3))
 
 
-def model_terms(c):
+def model_terms(c, thorough=True):
     """Coq boolean terms: model geometry == observed geometry"""
     sig = c.sigma
     # `if self.fwhm != 1.0` guard of _normsq is part of the model (eff_sigma)
@@ -187,6 +187,9 @@ def model_terms(c):
     if is_diag(c.A3):
         rows = ["geom_diag %s %s %s" % (cz(c.shape[i]), cq(float(c.A3[i, i])), sigq) for i in range(3)]
         terms.append(("zmat_eqb %s %s" % (clist(rows), impl), clist(rows)))
+    vol = c.shape[0] * c.shape[1] * c.shape[2]
+    if not thorough and ((is_diag(c.A3) and vol > 48) or (vol > 150 and hash((c.shape, c.fwhm)) % 5)):
+        return terms      # quick tier: the 3-D support model (slow in vm_compute) on small grids and a fifth of the larger oblique cases
     g3 = "(geom3 %s [%s; %s; %s] %s)" % (cqmat(c.A3), sigq, sigq, sigq, czl(c.shape))
     terms.append(("zmat_eqb %s %s" % (g3, impl), g3))
     return terms
@@ -297,11 +300,14 @@ def geometry_and_values(ck):
                 if borderline(A3, c.sigma if fwhm != 1.0 else 1.0, shape):
                     nskip += 1
                     continue
-                for tm, mexpr in model_terms(c):
+                for tm, mexpr in model_terms(c, ck.thorough()):
                     terms.append(tm)
                     meta.append((c, mexpr))
     if ck.build is not None and ck.build.ok:
-        res = ck.coq_bools(HDR, terms, shard=ck.n(60, 120))
+        import time
+        t0 = time.time()
+        res = ck.coq_bools(HDR, terms, shard=ck.n(40, 80))
+        ck.section("geometry", coq_eval_s=round(time.time() - t0, 1))
         ck.cov["traces_validated_against_impl"] += len(res)
         for ok, (c, mexpr), tm in zip(res, meta, terms):
             if not ok:
@@ -497,9 +503,13 @@ def run(ck):
                     "sigma = fwhm2sigma(fwhm) is read from the implementation as an exact rational and threaded into the model; "
                     "np.power(., 1/D) is a D-th root (resel conversions)")
     ck.assume.append("cov=None (no whitening); scalar fwhm; 3-D images (4-D raises NotImplementedError in the code)")
+    import time
+    tm = {"coq_build+overlay": round(time.time() - ck.t0, 1)}
     try:
-        oracles(ck)
-        impulses(ck)
-        geometry_and_values(ck)
+        for fn in (oracles, impulses, geometry_and_values):
+            t0 = time.time()
+            fn(ck)
+            tm[fn.__name__] = round(time.time() - t0, 1)
     finally:
         gc.unfreeze()
+        ck.section("timing_s", **tm)
